@@ -129,6 +129,11 @@ def run_case(case, tier):
         res.update(verdict="violated", nontrivial=has_cond)
         return res
     effective = {str(v) for v in program.effective_variables}
+    av = K.abstraction_values(program, prog, params)
+    if av is None:
+        res.update(verdict="inconclusive", reason="abstraction-outside-oracle")
+        return res
+    values.update(av)
     try:
         table = K.oracle_moments(prog, params, inits, goals, N)
     except K.OracleSkip:
